@@ -11,12 +11,14 @@ from vf.core import R
 # ---------------------------------------------------------------------------------------------------
 # (a) constant volume: distribution = master equation with volume-scaled propensities
 def _paths_factory(sp, grid, how, vol):
-    from bioscrape.simulator import ModelCSimInterface, VolumeSSASimulator, py_simulate_model
+    from bioscrape.simulator import ModelCSimInterface, SafeModelCSimInterface, VolumeSSASimulator, py_simulate_model
     from bioscrape.types import Volume
     from bioscrape.random import py_seed_random
     with specmod.quiet():
         M = specmod.to_model(sp)
-        I = ModelCSimInterface(M)
+        # the safe interface has its own propensity loops; on these networks (every rate vanishes with its reactants)
+        # its guards never change a rate, so the same master equation is the reference
+        I = SafeModelCSimInterface(M) if how == "safe_simulator" else ModelCSimInterface(M)
     tp = np.array(grid, dtype=float)
     I.py_set_dt(float(tp[1] - tp[0]))
     order = [M.get_species2index()[s] for s in sp["species"]]
@@ -198,7 +200,7 @@ def open_networks(draw):
 
 @st.composite
 def const_cases(draw, n1):
-    how = draw(st.sampled_from(["simulator"] * 6 + ["model_api"]))
+    how = draw(st.sampled_from(["simulator"] * 5 + ["safe_simulator"] * 2 + ["model_api"]))
     vol = draw(st.one_of(st.sampled_from([0.5, 2.0, 1.0, 4.0, 0.25]), gen.logfl(0.2, 5)))
     dt = draw(st.sampled_from([0.125, 0.25, 0.5, 1.0]))
     grid = [i * dt for i in range(draw(st.integers(2, 5)))]
